@@ -39,7 +39,7 @@ META = {
     "design_ref": "DESIGN.md §3 C07",
     "engines": ["sched"],
 }
-REQUIRED = ("appends", "reads", "reads_overlapping_a_partial_record", "schedules", "lines_hit", "process_rounds", "thread_rounds", "stalled_chunk_schedules", "construction_lines_hit")
+REQUIRED = ("appends", "reads", "reads_overlapping_a_partial_record", "schedules", "lines_hit", "process_rounds", "thread_rounds", "stalled_chunk_schedules", "construction_lines_hit", "schedules_on_a_journal_with_a_torn_tail")
 SHARDS = {"quick": 12, "thorough": 16}
 WATCHDOG_S = {"quick": 1200, "thorough": 4 * 3600}
 BUDGET_S = {"quick": 60, "thorough": 1800}
@@ -405,7 +405,7 @@ def process_round(ctx: Ctx, rng, idx: int) -> None:
 
 
 # ------------------------------------------------------------------------------------ (c) systematic schedules
-def enumerate_schedules(ctx: Ctx, s: sched.Sched, rng, lockname: str, a_kind: str, b_kind: str, stall: bool, aged: bool) -> None:
+def enumerate_schedules(ctx: Ctx, s: sched.Sched, rng, lockname: str, a_kind: str, b_kind: str, stall: bool, aged: bool, torn: bool = False) -> None:
     import optuna.storages.journal._file as F
 
     def scene():
@@ -418,6 +418,10 @@ def enumerate_schedules(ctx: Ctx, s: sched.Sched, rng, lockname: str, a_kind: st
         for j in range(3):
             backs[2].append_logs([{"w": 9, "n": j, "pad": "y" * (10 + 3000 * j)}])
         backs[0].read_logs(0)
+        if torn:
+            # a writer that died earlier left an unterminated record behind (the journal is larger than one 4096-byte block)
+            with builtins.open(path, "ab") as f0:
+                f0.write(b'{"w":8,"n":0,"pad":"' + b"q" * 300)
         if aged:
             old = time.time() - 120
             os.utime(path, (old, old))
@@ -482,10 +486,12 @@ def enumerate_schedules(ctx: Ctx, s: sched.Sched, rng, lockname: str, a_kind: st
         call("read_cur", backs[0], 0, events, 0)
         call("append", backs[0], 0, events, 1)
         call("read0", backs[1], 1, events, 0)
-        case = {"mode": "single_preemption", "lock": lockname, "A": a_kind, "B": b_kind, "B_stalled_after_first_chunk": bool(gate), "journal_aged": aged,
+        if torn:
+            ctx.count("schedules_on_a_journal_with_a_torn_tail")
+        case = {"mode": "single_preemption", "lock": lockname, "A": a_kind, "B": b_kind, "B_stalled_after_first_chunk": bool(gate), "journal_aged": aged, "torn_tail": torn,
                 "paused_at": f"{target[0].co_qualname}:{target[1]}", "seed": ctx.seed}
         ctx.case(case, hit)
-        facts = {"mode": "single_preemption", "lock": lockname, "pair": f"{a_kind}/{b_kind}", "stalled_chunk": bool(gate), "journal_aged": aged}
+        facts = {"mode": "single_preemption", "lock": lockname, "pair": f"{a_kind}/{b_kind}", "stalled_chunk": bool(gate), "journal_aged": aged, "torn_tail": torn}
         ctx.maxi("max_lock_holders", hm.max)
         if hm.max > 1:
             ctx.violation({**facts, "kind": "two_lock_holders"}, f"{hm.max} workers held the journal lock at the same time", case)
@@ -586,6 +592,7 @@ def run(ctx: Ctx) -> None:
                  (("append", "append", False), ("append", "read0", False), ("read0", "append", True), ("read_cur", "append", True), ("read_past", "append", True),
                   ("read0", "append", False), ("read_past", "read0", False), ("append", "read_past", False)) for ag in (False, True)
                  if not (ag and a != "append")]
+        cells += [(lk, a, b, False, False, True) for lk in ("symlink", "open") for (a, b) in (("append", "append"), ("append", "read0"), ("read0", "append"))]
         for ci, cell in enumerate(cells):
             if ctx.mine(ci):
                 enumerate_schedules(ctx, s, ctx.rng("cell", ci), *cell)
@@ -610,7 +617,7 @@ def replay(ctx: Ctx, w: dict) -> None:
     try:
         if c["mode"] == "single_preemption":
             ctx.tier = "thorough"
-            enumerate_schedules(ctx, s, ctx.rng("replay"), c["lock"], c["A"], c["B"], bool(c["B_stalled_after_first_chunk"]), bool(c["journal_aged"]))
+            enumerate_schedules(ctx, s, ctx.rng("replay"), c["lock"], c["A"], c["B"], bool(c["B_stalled_after_first_chunk"]), bool(c["journal_aged"]), bool(c.get("torn_tail")))
         elif c["mode"] == "concurrent_construction":
             construct_schedules(ctx, s, c["lock"])
         elif c["mode"] == "threads":
